@@ -185,3 +185,128 @@ Proof.
   split; [apply lexer_shapedb_spec; vm_compute; reflexivity|].
   eexists. split; [vm_compute; reflexivity|]. split; vm_compute; reflexivity.
 Qed.
+
+(* ---- every SOURCE TEXT: the lexer model (C18) composed with the parser model ------------- *)
+
+(* Until here the theorems quantify over token lists and [lexer_shaped] is a hypothesis.  Below
+   it is a theorem: [Lexer.lex] is the model of parser.Lex / LexToList (Model/Lexer.v, the code
+   as it is in /repo; C18 proves it total and proves the shape of its result), [to_ptok]
+   (Model/LexParse.v) carries a lexer token over to the token record of the parser model field
+   by field, [source_tokens ts = map to_ptok ts], and
+        parse_source input = Ok (parse (source_tokens ts))      for  Lexer.lex input = Ok ts
+   is parser.Parse(name, input).  Everything below holds for EVERY byte string (valid or
+   invalid UTF-8, control characters, any length). *)
+From Ecal Require Model.Lexer Proofs.LexerProofs Spec.PositionSpec.
+From Ecal Require Import Model.LexParse Proofs.LexParseProofs.
+
+(* the hypothesis of all the theorems above, discharged: the token list of every input has its
+   only EOF token at the very end *)
+Theorem C07_source_tokens_lexer_shaped :
+  forall (input : bytes) (ts : list Lexer.token),
+    Lexer.lex input = Outcome.Ok ts -> lexer_shaped (source_tokens ts).
+Proof. exact stream_eof_last. Qed.
+Print Assumptions C07_source_tokens_lexer_shaped.
+
+(* the exact shape (stronger than [lexer_shaped]; it is C18's "ends with EOF, an error, or an
+   error followed by EOF" read through the adapter): ordinary tokens, then [EOF], [error] or
+   [error; EOF].  After an error token the lexer sends at most one more token, EOF; the parser
+   stops at the error token ([next]: ErrLexicalError) and its deferred drain receives the rest. *)
+Theorem C07_source_tokens_shape :
+  forall (input : bytes) (ts : list Lexer.token),
+    Lexer.lex input = Outcome.Ok ts -> stream_shape (source_tokens ts).
+Proof. exact stream_has_shape. Qed.
+Print Assumptions C07_source_tokens_shape.
+
+(* Parsing is total, for every source text: the lexer returns a token list (no panic, no loop
+   without end), the parser returns within the fuel |tokens| + 5 without a nil dereference,
+   and the result is either (a well-formed tree, no error) or (no tree, an error positioned
+   at a token of the input or at the zero position); in both cases every token the lexer
+   sends has been received: nothing is left blocked on the channel. *)
+Theorem C07_source_parse_total :
+  forall input : bytes,
+    exists ts : list Lexer.token,
+      Lexer.lex input = Outcome.Ok ts /\
+      ((exists t, parse_source input = Outcome.Ok (PRes (Some t) None (List.length ts)) /\ wf t) \/
+       (exists e, parse_source input = Outcome.Ok (PRes None (Some e) (List.length ts)) /\
+                  positioned e (positions (source_tokens ts)))).
+Proof.
+  intros input. destruct (parse_source_ok input) as (ts & H & -> & G). exists ts. split; [exact H|].
+  rewrite <- (source_tokens_length ts).
+  destruct (parse (source_tokens ts)) as [[t|] [e|] r|x r|]; simpl in G; try contradiction.
+  - left. exists t. destruct G as [G1 ->]. auto.
+  - right. exists e. destruct G as [G1 ->]. auto.
+Qed.
+Print Assumptions C07_source_parse_total.
+
+(* what "positioned" means in terms of the source text: the error carries the zero position
+   (unexpected end after the last token) or the reported line and column of a token [k] the
+   lexer produced from the input - and unless [k] is the EOF token that line is the true
+   line (1 + number of newline bytes before it) of the byte offset [k] starts at.  (Columns:
+   C18, known finding line-comment-column.) *)
+Theorem C07_source_error_position :
+  forall (input : bytes) (e : perr) (r : nat),
+    parse_source input = Outcome.Ok (PRes None (Some e) r) ->
+    (e_line e, e_pos e) = (0, 0%Z) \/
+    exists ts k, Lexer.lex input = Outcome.Ok ts /\ In k ts /\
+      Z.of_nat (e_line e) = Lexer.t_line k /\ e_pos e = Lexer.t_col k /\
+      (Lexer.t_id k <> TokenEOF ->
+         e_line e = 1 + PositionSpec.nl_count input (Lexer.t_pos k) /\ Lexer.t_pos k <= List.length input).
+Proof.
+  intros input e r H. destruct (parse_source_ok input) as (ts & HL & HP & G). rewrite HP in H.
+  injection H as H. rewrite H in G. destruct G as [[G|G] _]; [left; symmetry; exact G|].
+  right. destruct (positions_source ts _ G) as (k & Hk & E). exists ts, k.
+  injection E as E1 E2. pose proof (stream_lines_kept input ts HL k Hk) as K.
+  change (Parser.t_line (to_ptok k)) with (Z.to_nat (Lexer.t_line k)) in K. rewrite <- E1 in K.
+  split; [exact HL|]. split; [exact Hk|]. split; [exact K|]. split; [exact E2|].
+  intros Hne. destruct (stream_lines_true input ts HL k Hk Hne) as [A B]. split; [|exact B].
+  change (Parser.t_line (to_ptok k)) with (Z.to_nat (Lexer.t_line k)) in A. rewrite <- E1 in A. exact A.
+Qed.
+Print Assumptions C07_source_error_position.
+
+(* the lines the parser's same-line decisions compare (statement separation, `return` with or
+   without a value, `[` as an index access) are the lexer's lines unchanged (EOF included), and
+   for every token but EOF the true line of the token's byte offset *)
+Theorem C07_source_tokens_lines_true :
+  forall (input : bytes) (ts : list Lexer.token), Lexer.lex input = Outcome.Ok ts ->
+    forall k, In k ts ->
+      Z.of_nat (t_line (to_ptok k)) = Lexer.t_line k /\
+      (Lexer.t_id k <> TokenEOF ->
+         t_line (to_ptok k) = 1 + PositionSpec.nl_count input (Lexer.t_pos k) /\
+         Lexer.t_pos k <= List.length input).
+Proof.
+  intros input ts H k Hk. split; [exact (stream_lines_kept input ts H k Hk)|].
+  exact (stream_lines_true input ts H k Hk).
+Qed.
+Print Assumptions C07_source_tokens_lines_true.
+
+(* non-vacuity: real source bytes through lexer model + adapter + parser model.
+   a := 1 + 2 # c<LF>b      (comment token skipped; two statements, the second on line 2) *)
+Example C07_example_source_tree :
+  parse_source [97;32;58;61;32;49;32;43;32;50;32;35;32;99;10;98]%N
+  = Outcome.Ok (PRes (Some
+      (Node "statements" [] false false 0
+         [Node ":=" [58; 61]%N false false 1
+            [Node "identifier" [97]%N true false 1 [];
+             Node "plus" [43]%N false false 1
+               [Node "number" [49]%N false false 1 []; Node "number" [50]%N false false 1 []]];
+          Node "identifier" [98]%N true false 2 []])) None 8).
+Proof. vm_compute. reflexivity. Qed.
+
+(* a ; <unclosed quote>     the lexer sends a, ;, error, EOF: a lexical error at line 1 column 5,
+   all 4 tokens received (the witness of F10/F11 above, now from its source text) *)
+Example C07_example_source_error :
+  parse_source [97;32;59;32;34]%N = Outcome.Ok (PRes None (Some (E 2 1 5)) 4) /\
+  option_map (map t_id) (match Lexer.lex [97;32;59;32;34]%N with Outcome.Ok ts => Some (source_tokens ts) | _ => None end)
+  = Some [7; 30; 0; 1].
+Proof. vm_compute. split; reflexivity. Qed.
+
+(* x := f(1)[2].y ; if a { break } else { b }     the token list of C07_example_tree is what the
+   lexer model produces from this text *)
+Example C07_example_source_matches_token_example :
+  option_map (fun ts => List.length ts) (match Lexer.lex
+    [120;32;58;61;32;102;40;49;41;91;50;93;46;121;32;59;32;105;102;32;97;32;123;32;98;114;101;97;107;32;125;32;101;108;115;101;32;123;32;98;32;125]%N
+    with Outcome.Ok ts => Some (source_tokens ts) | _ => None end) = Some 22 /\
+  exists t, parse_source
+    [120;32;58;61;32;102;40;49;41;91;50;93;46;121;32;59;32;105;102;32;97;32;123;32;98;114;101;97;107;32;125;32;101;108;115;101;32;123;32;98;32;125]%N
+    = Outcome.Ok (PRes (Some t) None 22) /\ wfb t = true /\ node_size t = 18.
+Proof. split; [vm_compute; reflexivity|]. eexists. split; [vm_compute; reflexivity|]. split; vm_compute; reflexivity. Qed.
